@@ -13,3 +13,28 @@ package tcp
 //@ field tcpAcceptor.listener immutable (*tcpFactory).Listen
 //@ field tcpAcceptor.options immutable (*tcpFactory).Listen
 //@ field tcpAcceptor.* covered
+
+// C13: the tcp acceptor. Close elects one closer by CAS and closes the net listener once; Accept
+// returns an error only when AcceptTCP failed, and retries only timeouts seen while not closed.
+//@ property C13
+//@ assume func =(*net.TCPListener).AcceptTCP
+//@   event
+//@   ensures_assumed iff(result1 == nil, result0 != nil)
+//@ assume func =(*net.TCPListener).Close
+//@   event
+//@ assume func =(*net.conn).Close
+//@   event
+//@ assume func newTcpTransport
+//@   event
+//@   ensures_assumed iff(result1 == nil, result0 != nil)
+//@ func (*tcpAcceptor).Close
+//@   requires t != nil && t.listener != nil
+//@   ensures closes_listener_once: evis(0, "cas t.closed") && evarg(0, 0) == 0 && evarg(0, 1) == 1 && implies(evres(0, 0), nemitted() == 2 && evis(1, "TCPListener).Close") && evarg(1, 0) == t.listener) && implies(!evres(0, 0), nemitted() == 1 && result == nil)
+//@ func (*tcpAcceptor).Accept
+//@   requires t != nil && t.listener != nil
+//@   modifies nothing
+//@   loop 0 emits
+//@   loop 0 invariant retries_only_timeouts_while_open: implies(nemitted() > 0, nemitted() == 3 && evis(0, "AcceptTCP") && evarg(0, 0) == t.listener && evres(0, 1) != nil && evis(1, "load t.closed") && evres(1, 0) == 0 && evis(2, "time.Sleep"))
+//@   loop 0 invariant delay_bounded: 0 <= tempDelay && tempDelay <= 1000000000
+//@   ensures result_of_last_accept: last("AcceptTCP") >= 0 && evarg(last("AcceptTCP"), 0) == t.listener && implies(result1 == nil, result0 != nil && evres(last("AcceptTCP"), 1) == nil)
+//@   ensures closed_acceptor_reports_the_error: implies(evres(last("AcceptTCP"), 1) != nil, result1 != nil && result0 == nil && evis(last("AcceptTCP") + 1, "load t.closed"))
